@@ -284,7 +284,7 @@ fn run_c14(ctx: &mut Ctx) {
             }
         }
     }
-    let per = tier.pick(100, 150_000, 2_000_000) / ctx.nworkers + 1;
+    let per = tier.pick(100, 150_000, 800_000) / ctx.nworkers + 1;
     let mut rng = Rng::derive(ctx.seed, 0x1415, ctx.worker as u64);
     for _ in 0..per {
         let ty = rng.below(NTYPES);
